@@ -76,7 +76,8 @@ def run(ctx):
       'shards, retry thresholds 0/1/default); fault-free runs of as_completed '
       'with every subset of <= 2 (thorough 3) late replies (2-3 workers, 2-4 '
       'tasks); worker shuffles as environment choices (every rotation) combined '
-      'with faults, <= 2 (3) deviations. A case = one complete run; distinct = distinct '
+      'with faults, <= 2 (3) deviations; a killed worker rejoining at any later '
+      'RPC boundary (kill + restart, thorough + 1 fault). A case = one complete run; distinct = distinct '
       '(configuration, fault placement).')
   ctx.assumptions += [
       'fake transport: a call runs its handler at most once; deadline errors '
@@ -114,6 +115,21 @@ def run(ctx):
                                   shuffle=True, push=False))]
   explorer.explore_all(ctx, MODULE, shuffled, pre_bound=-1,
                        dev_bound=2 if ctx.quick else 3, split=8)
+  # a killed worker may rejoin (fresh server, same address) at any later RPC
+  # boundary: every placement of one kill and one restart (thorough: + one more
+  # fault)
+  KR = ['kill', 'restart']
+  rejoin = [('as_completed', dict(W=2, T=3, menu=KR)),
+            ('sharded', dict(W=2, S=2, total=5, batch=2, menu=KR))]
+  if not ctx.quick:
+    rejoin += [('as_completed', dict(W=2, T=3, menu=KR, push=False)),
+               ('as_completed', dict(W=3, T=4, menu=MENU + ['restart'])),
+               ('sharded', dict(W=2, S=3, total=6, batch=2, menu=KR)),
+               ('sharded', dict(W=2, S=2, total=5, batch=2, menu=KR,
+                                push=False))]
+  explorer.explore_all(ctx, MODULE, rejoin, pre_bound=-1,
+                       dev_bound=2 if ctx.quick else 3, split=8)
+  ctx.notes['rejoin_configurations'] = len(rejoin)
   shc = sharded_configs(ctx.tier)
   explorer.explore_all(ctx, MODULE, shc, pre_bound=-1, dev_bound=dev,
                        split=0 if ctx.quick else 8)
